@@ -214,6 +214,9 @@ def run(res, tier, seed, search):
         plan = [(f, m) for f in fams for m in modes]
         n = 2000
     dk.check_blocks(res, rng, 40 if tier == "quick" else 300)
+    # the translated generate_leaf_updates executed against the numba kernel (own stream: the cases above keep theirs)
+    dk.check_leaf_updates(res, np.random.default_rng(seed + 303), 40 if tier == "quick" else 400)
+    dk.check_graph_updates(res, np.random.default_rng(seed + 30303), 40 if tier == "quick" else 400)
     big_block_case(res, rng)
     warm_start_case(res, rng, "manhattan")
     if tier != "quick":
